@@ -1390,6 +1390,7 @@ LZ4HC_compress_generic_internal (
 
     ctx->end += *srcSizePtr;
     {   cParams_t const cParam = LZ4HC_getCLevelParams(cLevel);
+        int const offeredSize = *srcSizePtr;
         HCfavor_e const favor = ctx->favorDecSpeed ? favorDecompressionSpeed : favorCompressionRatio;
         int result;
 
@@ -1410,6 +1411,13 @@ LZ4HC_compress_generic_internal (
                                 dict, favor);
         }
         if (result <= 0) ctx->dirty = 1;
+        if (limit == fillOutput && result > 0 && *srcSizePtr < offeredSize) {
+            /* Only part of the input was consumed : the stream continues from the first unconsumed byte.
+             * ctx->end and the tables were advanced as if everything had been consumed :
+             * restart indexing from that byte (previous history is no longer referenced). */
+            LZ4HC_init_internal(ctx, (const BYTE*)src + *srcSizePtr);
+            ctx->dictCtx = NULL;
+        }
         return result;
     }
 }
